@@ -46,6 +46,9 @@ Definition g_modes_of (lib : list mode) (sp : Q) (it : iter) : list mode :=
 Definition g_calc_penalty (x : Q) (tab : table) : pen :=
   interp_gen (Some PInf) (Some PInf) x tab.
 
+(* gnpy/core/elements.py: Roadm.set_roadm_paths, noise (1/linear) of ONE add or drop stage of the default model *)
+Definition g_add_drop_stage (add_drop : Q) : Q := (add_drop / 2).
+
 (* gnpy/core/utils.py: snr_sum, every dB value replaced by its 1/linear *)
 Definition g_snr_sum (snr bw snr_added bw_added : Q) : Q :=
   let snr_added1 := (snr_added * (bw / bw_added)) in
